@@ -5,3 +5,4 @@ import LLRP.Props.C19
 import LLRP.Props.C18
 import LLRP.Props.C16
 import LLRP.Props.C17
+import LLRP.Props.C14
